@@ -65,10 +65,14 @@ def gen_flowir_package(rr, idx):
     if fan_in:
         ncomp = max(ncomp, 3)
     names = ['alpha', 'beta', 'gamma', 'delta', 'eps']
-    if rr.random() < 0.4:
+    r_names = rr.random()
+    if r_names < 0.4:
         # names that contain one another: references are rewritten textually when producers are replicated
         names = ['proc', 'postproc', 'preproc', 'subproc', 'eps']
         rr.shuffle(names)
+    elif r_names < 0.5:
+        # names that are also the names of directories the runtime creates inside an instance
+        names = ['output', 'stages', 'gamma', 'delta', 'eps']
     nstages = rr.choice([1, 2])
     replicated = {}
     for i in range(ncomp):
